@@ -159,6 +159,9 @@ type pta struct {
 	work        []nodeID
 	inWork      []bool
 	writes      []writeSite
+	shortened   []nodeID            // operands of s[:k] / s[:k:m]: their backing arrays may have spare capacity afterwards
+	handBack    map[string][]nodeID // API-root parameters of type *T (T declared in the analysed packages), by T
+	libObjs     map[string][]objID  // run-phase objects of such types allocated by the library, by T
 	closure     map[*ssa.Function][]closureBind
 	callerO     objID
 	nExt        int
@@ -668,7 +671,35 @@ func (p *pta) allocObj(site interface{}, ph phaseT, tag, label string, pos token
 	o := p.newObj("alloc", ph, label, pos, typ, false)
 	p.objs[o].site = site
 	p.allocs[k] = o
+	// an object the library allocates while building can be handed to the caller and come back as the
+	// receiver or an argument of a later API call
+	if ph == phRun && typ != nil {
+		if key := p.handBackKey(typ); key != "" {
+			if p.libObjs == nil {
+				p.libObjs = map[string][]objID{}
+			}
+			p.libObjs[key] = append(p.libObjs[key], o)
+			for _, n := range p.handBack[key] {
+				p.addObj(n, o)
+			}
+		}
+	}
 	return o
+}
+
+// handBackKey: T is (a pointer to) a named type declared in the analysed packages.
+func (p *pta) handBackKey(t types.Type) string {
+	if ptr, ok := t.Underlying().(*types.Pointer); ok {
+		t = ptr.Elem()
+	}
+	n := namedOf(t)
+	if n == nil || n.Obj().Pkg() == nil || !p.c.IsAnalysed(n.Obj().Pkg()) {
+		return ""
+	}
+	if _, isStruct := n.Underlying().(*types.Struct); !isStruct {
+		return ""
+	}
+	return n.Obj().Pkg().Path() + "." + n.Obj().Name()
 }
 
 // ensure builds the constraints of a function copy.
@@ -783,6 +814,12 @@ func (p *pta) instr(fc *fnCopy, ins ssa.Instruction) {
 	case *ssa.Slice:
 		// slicing a pointer-to-array yields a slice over the array object; slicing a slice/string keeps the backing store
 		p.addCopy(n(x.X), n(x))
+		if x.High != nil || x.Max != nil {
+			// s[:k] leaves spare capacity behind the result: an append to it writes into the backing array
+			if src := n(x.X); src >= 0 {
+				p.shortened = append(p.shortened, src)
+			}
+		}
 	case *ssa.FieldAddr:
 		p.addComplex(n(x.X), complexC{kind: 3, other: n(x), field: x.Field, want: pointee(x.X.Type())})
 	case *ssa.IndexAddr:
@@ -1598,6 +1635,11 @@ func (p *pta) run() (viol []ptaViolation, stats map[string]int) {
 		}
 	}
 	p.solve()
+	// backing arrays some slice expression cuts short (capacity may exceed length afterwards)
+	spare := map[objID]bool{}
+	for _, nd := range p.shortened {
+		p.nodes[nd].pts.each(func(i int32) { spare[p.objRoot(objID(i))] = true })
+	}
 	// classify writes
 	seen := map[string]bool{}
 	nWrites := 0
@@ -1614,6 +1656,14 @@ func (p *pta) run() (viol []ptaViolation, stats map[string]int) {
 		if o, ok := top.Object().(*types.Func); ok {
 			fname = fw.FuncName(o)
 		}
+		if q := os.Getenv("PTA_SITE"); q != "" && strings.Contains(fname, q) {
+			var labs []string
+			p.nodes[w.target].pts.each(func(i int32) {
+				r := p.objs[p.objRoot(objID(i))]
+				labs = append(labs, fmt.Sprintf("%s(phase %d, compat %v)", r.label, r.phase, p.compat(objID(i), w.want)))
+			})
+			fmt.Fprintf(os.Stderr, "SITE %s %s at %s: %v\n", fname, w.kind, p.posLabel(w.fn, w.instr.Pos()), labs)
+		}
 		p.nodes[w.target].pts.each(func(i int32) {
 			o := objID(i)
 			r := p.objs[p.objRoot(o)]
@@ -1624,8 +1674,8 @@ func (p *pta) run() (viol []ptaViolation, stats map[string]int) {
 				return
 			}
 			if w.kind == "append" {
-				if a, ok := r.site.(*ssa.Alloc); ok && a.Comment == "slicelit" {
-					return // the backing array of a slice literal has no spare capacity: append reallocates
+				if a, ok := r.site.(*ssa.Alloc); ok && a.Comment == "slicelit" && !spare[p.objRoot(o)] {
+					return // the backing array of a slice literal has no spare capacity (and nothing cuts it short): append reallocates
 				}
 			}
 			// nil-guard filtering: `x.f != nil` holds, so objects whose field f holds nothing are excluded
@@ -1728,7 +1778,19 @@ func (p *pta) rootFn(f *ssa.Function) {
 	}
 	p.ensure(f, phRun)
 	for _, prm := range f.Params {
-		p.callerValue(p.node(prm, phRun), prm.Type())
+		n := p.node(prm, phRun)
+		p.callerValue(n, prm.Type())
+		if _, isPtr := prm.Type().Underlying().(*types.Pointer); isPtr && n >= 0 {
+			if key := p.handBackKey(prm.Type()); key != "" {
+				if p.handBack == nil {
+					p.handBack = map[string][]nodeID{}
+				}
+				p.handBack[key] = append(p.handBack[key], n)
+				for _, o := range p.libObjs[key] {
+					p.addObj(n, o)
+				}
+			}
+		}
 	}
 }
 
